@@ -326,6 +326,20 @@ open_("F-C09-rangeop-lexer", "C09",
       {"text": "(@Ghost!A1):SUM(A1:A3,7)", "language": "en", "locale": "en", "sig": "display|rangeop>at:L|rangeop(at,call)"},
       patterns=[{"check": f, "keys": ["rangeop>at:L", "rangeop>rangeop:R"], "cats": ["*"]} for f in FORMS])
 
+# ---------------------------------------------------------------- C11 / C25
+fixed("FX-C11-deep-nesting", "C11", "a420563",
+      "a formula with 3000 nested parentheses overflowed the stack of the recursive-descent parser and aborted the process",
+      {"tier": "quick", "seed": 0, "index": 88})
+IMPORT_FILES = ["xlsx/src/import/worksheets.rs", "xlsx/src/import/styles.rs", "xlsx/src/import/mod.rs", "xlsx/src/import/workbook.rs",
+                "xlsx/src/import/conditional_formatting.rs", "xlsx/src/import/tables.rs", "xlsx/src/import/shared_strings.rs",
+                "xlsx/src/import/metadata.rs", "xlsx/src/import/util.rs", "xlsx/src/import/colors.rs"]
+open_("F-C25-import-index-panics", "C25",
+      "the xlsx importer indexes vectors and maps with values taken from the file (first child of a required element, relationship ids, localSheetId, style indices): a package without <fonts>/<borders>/<sheets>, with a dangling relationship id or an out-of-range localSheetId panics instead of returning an error",
+      {"seed": 0, "index": 198},
+      patterns=[{"check": "panic", "keys": IMPORT_FILES,
+                 "cats": ["index out of bounds: the len is # but the index is #", "no entry found for key",
+                          "called `Option::unwrap()` on a `None` value"]}])
+
 def main():
     os.makedirs(os.path.join(HERE, "findings"), exist_ok=True)
     out = []
